@@ -115,7 +115,7 @@ def _pattern(rng, w, before, depth=0):
     return body
 
 
-def gen(rng, want=None):
+def gen(rng, want=None, groupreplace=False):
     w = WTable()
     L = w.lines
     used = {0}
@@ -385,7 +385,9 @@ def gen(rng, want=None):
         w.cell.setdefault(c2, d2)
         w.triggers.append([c1] + _word(rng, w, 0, 3) + [c2])
         w.triggers.append([c1, c1] + _word(rng, w, 1, 2) + [c2] + _word(rng, w, 0, 1) + [c2])
-        if rng.random() < 0.5:
+        if groupreplace and rng.random() < 0.5:
+            # (only where asked for - the checks whose oracle is "no fault, returns": the grouping actions of the unmodified
+            # tree stop a pass early in ways recorded as F37/F41 and one more not yet explained, see DESIGN)
             # a second grouping and a rule that REPLACES the delimiters of the first by those of the second (`;name`): the
             # pass input is copied for that, whatever its length (seeded change C01-H sized the copy by the output capacity)
             rest = [c for c in w.puncts + EXTRA[:4] if c not in (c1, c2)]
